@@ -247,10 +247,16 @@ func runC01(ctx *Ctx) {
 			Kind string  `json:"kind"`
 			Opts optSpec `json:"opts"`
 			Hex  string  `json:"bytes_hex"`
+			Page string  `json:"page_url"`
+			Algo int     `json:"algo"`
 		}
 		readReplay(ctx.Replay, &r)
 		src := r.HTML
 		o := guarded(func() (*distiller.Result, error) {
+			if r.Kind == "pager" {
+				page, _ := nurl.Parse(r.Page)
+				return distiller.Apply(parseDoc(src).Root, &distiller.Options{OriginalURL: page, PaginationAlgo: distiller.PaginationAlgo(r.Algo)})
+			}
 			return distiller.ApplyForReader(strings.NewReader(src), r.Opts.build())
 		}, limit)
 		report(o, "replay:"+r.Kind, r.Opts, r)
@@ -310,6 +316,30 @@ func runC01(ctx *Ctx) {
 			os.Remove(p)
 		}
 	}
+	// 6. pagers that mix every kind of anchor, on their own page URL, both algorithms
+	for i := 0; i < ctx.pick(400, 12000); i++ {
+		r := newRng(ctx.Seed, fmt.Sprintf("C01/pager/%d", i))
+		c := genPager(r, newPageGen(r))
+		if r.Chance(30) {
+			c = sparsePager(r)
+		}
+		page, err := nurl.Parse(c.PageURL)
+		if err != nil {
+			continue
+		}
+		for algo := 0; algo < 2; algo++ {
+			a := distiller.PaginationAlgo(algo)
+			src := c.HTML
+			out := guarded(func() (*distiller.Result, error) {
+				return distiller.Apply(parseDoc(src).Root, &distiller.Options{OriginalURL: page, PaginationAlgo: a})
+			}, limit)
+			report(out, "pager", optSpec{}, map[string]interface{}{"html": src, "kind": "pager", "page_url": c.PageURL, "algo": algo})
+		}
+	}
+	// 7. the byte-level model of PathComponentPagePattern.IsPagingURL (theorem
+	// paging_url_total is about it) against the real method on probe URLs; a panic of the real
+	// method shows up as 'P' in its answer
+	pathPagingCorr(ctx, ctx.pick(800, 20000)).run(ctx)
 }
 
 func renderNodeSafe(n *html.Node) (s string) {
